@@ -32,6 +32,8 @@ enum PageFault {
     Rst,
     /// Answer delayed by seconds.
     Slow,
+    /// The statement was evicted from this node's cache: UNPREPARED.
+    Unprepared,
 }
 
 #[derive(Debug, Clone)]
@@ -43,6 +45,7 @@ struct PagePlan {
     states: Vec<Vec<u8>>,
     fault_permille: u64,
     fatal_allowed: bool,
+    slow_allowed: bool,
 }
 
 #[derive(Debug, Clone)]
@@ -85,11 +88,22 @@ impl Script for C07Script {
             Some(ps) => plan.states.iter().position(|s| s == ps).map(|j| j + 1),
         };
         let fault = if plan.fault_permille > 0 && tape::chance("c07:fault", plan.fault_permille, 1000) {
-            match tape::weighted("c07:fault_kind", &[4, if plan.fatal_allowed { 1 } else { 0 }, 2, 2]) {
+            let prepared = matches!(req, Request::Execute { .. });
+            match tape::weighted(
+                "c07:fault_kind",
+                &[
+                    4,
+                    if plan.fatal_allowed { 1 } else { 0 },
+                    2,
+                    if plan.slow_allowed { 2 } else { 0 },
+                    if prepared { 3 } else { 0 },
+                ],
+            ) {
                 0 => PageFault::Retryable(tape::choose("c07:retryable", 3) as u8),
                 1 => PageFault::Fatal(tape::choose("c07:fatal", 2) as u8),
                 2 => PageFault::Rst,
-                _ => PageFault::Slow,
+                3 => PageFault::Slow,
+                _ => PageFault::Unprepared,
             }
         } else {
             PageFault::None
@@ -140,6 +154,16 @@ impl Script for C07Script {
                 return Reply::Error { code, msg: "fatal".into(), extra: vec![], delay };
             }
             PageFault::Rst => return Reply::Close { rst: true, delay },
+            PageFault::Unprepared => {
+                if let Request::Execute { id, .. } = req {
+                    // Evicted: the node forgets the statement and says so.
+                    w.cluster.nodes[rq.node].prepared.remove(id);
+                    w.fault(Fault::Evict);
+                    let mut x = crate::wire::W::new();
+                    x.short_bytes(id);
+                    return Reply::Error { code: err::UNPREPARED, msg: "unprepared".into(), extra: x.buf, delay };
+                }
+            }
             _ => {}
         }
         let start: usize = plan.sizes[..j].iter().sum();
@@ -248,7 +272,7 @@ pub fn run(req: &RunRequest) -> Value {
     })
 }
 
-fn draw_page_plan() -> PagePlan {
+fn draw_page_plan(slow_allowed: bool) -> PagePlan {
     let total_rows = match tape::weighted("c07:rows_kind", &[1, 3, 3, 1]) {
         0 => 0,
         1 => tape::range("c07:rows_small", 1, 8) as usize,
@@ -290,6 +314,7 @@ fn draw_page_plan() -> PagePlan {
         states,
         fault_permille: [0, 0, 100, 300][tape::choose("c07:fault_rate", 4) as usize],
         fatal_allowed: tape::chance("c07:fatal_allowed", 1, 2),
+        slow_allowed,
     }
 }
 
@@ -342,7 +367,10 @@ async fn main(plan: Plan) -> Outcome {
     let mut faults_total = 0u64;
     for qi in 0..plan.queries {
         let m = (qi as u64 + 1) * 16;
-        let pp = draw_page_plan();
+        // Some queries run with a (short) client-side request timeout; slow pages
+        // are not scripted for those, so that every scripted page is deliverable.
+        let req_timeout: Option<u64> = [None, None, Some(300 * MS), Some(2 * SEC)][tape::choose("c07:req_timeout", 4) as usize];
+        let pp = draw_page_plan(req_timeout.is_none());
         {
             let mut w = world::world();
             let mut s = w.script.take().unwrap();
@@ -351,6 +379,12 @@ async fn main(plan: Plan) -> Outcome {
         }
         // 0 eager, 1 slow consumer, 2 early drop
         let consumer = tape::weighted("c07:consumer", &[3, 1, 1]);
+        // A consumer may also stall once for longer than the request timeout.
+        let stall_at = if tape::chance("c07:stall", 1, 3) && pp.total_rows > 0 {
+            Some((tape::choose("c07:stall_row", pp.total_rows as u64) as usize, req_timeout.unwrap_or(SEC) * 2 + 100 * MS))
+        } else {
+            None
+        };
         let drop_after = if consumer == 2 {
             tape::choose("c07:drop_after", pp.total_rows as u64 + 1) as usize
         } else {
@@ -365,10 +399,12 @@ async fn main(plan: Plan) -> Outcome {
             let pager = if use_prepared {
                 let mut p = prepared.clone().unwrap();
                 p.set_is_idempotent(true);
+                p.set_request_timeout(req_timeout.map(Duration::from_nanos));
                 session.execute_iter(p, (qi as i64, m as i64)).await
             } else {
                 let mut st = Statement::new(format!("{PAGED_Q}{m}"));
                 st.set_is_idempotent(true);
+                st.set_request_timeout(req_timeout.map(Duration::from_nanos));
                 session.query_iter(st, ()).await
             };
             let pager = match pager {
@@ -393,6 +429,11 @@ async fn main(plan: Plan) -> Outcome {
                 match stream.next().await {
                     Some(Ok((i, _t))) => {
                         seen.push(i);
+                        if let Some((row, len)) = stall_at {
+                            if seen.len() == row + 1 {
+                                world::sleep_ns(len).await;
+                            }
+                        }
                         if consumer == 1 {
                             world::sleep_ns(tape::range("c07:consumer_sleep", 0, 30) * MS).await;
                         }
